@@ -2162,8 +2162,14 @@ evhttp_header_is_valid_value(const char *value)
 	const char *p = value;
 
 	while ((p = strpbrk(p, "\r\n")) != NULL) {
-		/* we really expect only one new line */
-		p += strspn(p, "\r\n");
+		/* exactly one line break (CRLF or LF): two in a row would end
+		 * the header section on the wire */
+		if (p[0] == '\r' && p[1] == '\n')
+			p += 2;
+		else if (p[0] == '\n')
+			p += 1;
+		else
+			return (0);
 		/* we expect a space or tab for continuation */
 		if (*p != ' ' && *p != '\t')
 			return (0);
